@@ -144,6 +144,8 @@ impl ParseError {
 
     /// 构造函数
     pub fn new(message: &str, env: ParseEnv, index: ParseIndex) -> ParseError {
+        #[cfg(narsese_verif)]
+        verif_trace::emit(|| format!(r#"{{"ev":"error","index":{},"len":{}}}"#, index, env.len()));
         ParseError {
             message: message.to_string(),
             env_slice: ParseError::generate_env_slice(env, index),
@@ -153,6 +155,39 @@ impl ParseError {
 }
 /// 用于在报错时展示周边文本
 const ERR_CHAR_VIEW_RANGE: UIntPrecision = 4;
+
+/// Verification hooks (compiled only with `--cfg narsese_verif`): a thread-local event sink that
+/// records the transitions of the parser state machine (cursor, filled slots, error cursors).
+/// Nothing is recorded unless a test harness installs the sink.
+#[cfg(narsese_verif)]
+pub mod verif_trace {
+    use std::cell::RefCell;
+    thread_local! {
+        static SINK: RefCell<Option<Vec<String>>> = const { RefCell::new(None) };
+    }
+    /// start recording on this thread
+    pub fn install() {
+        SINK.with(|s| *s.borrow_mut() = Some(vec![]));
+    }
+    /// stop recording and hand the events over
+    pub fn take() -> Vec<String> {
+        SINK.with(|s| s.borrow_mut().take().unwrap_or_default())
+    }
+    pub(crate) fn emit(event: impl FnOnce() -> String) {
+        SINK.with(|s| {
+            if let Some(events) = s.borrow_mut().as_mut() {
+                events.push(event())
+            }
+        })
+    }
+    /// the five optional slots as a string of 0/1: budget, term, punctuation, stamp, truth
+    pub(crate) fn slots<B, T, P, S, R>(m: &crate::api::NarseseOptions<B, T, P, S, R>) -> String {
+        [m.budget.is_some(), m.term.is_some(), m.punctuation.is_some(), m.stamp.is_some(), m.truth.is_some()]
+            .iter()
+            .map(|b| if *b { '1' } else { '0' })
+            .collect()
+    }
+}
 /// 呈现报错文本
 impl Display for ParseError {
     fn fmt(&self, f: &mut std::fmt::Formatter) -> std::fmt::Result {
@@ -193,6 +228,8 @@ impl<'a, C> ParseState<'a, C> {
     /// * 📌自动内联
     #[inline(always)]
     pub fn reset_to(&mut self, input: &str, head: ParseIndex) {
+        #[cfg(narsese_verif)]
+        verif_trace::emit(|| format!(r#"{{"ev":"reset","left":"{}"}}"#, verif_trace::slots(&self.mid_result)));
         self.env = ParseState::_build_env(input);
         self.len_env = self.env.len();
         self.head = head;
@@ -551,6 +588,8 @@ impl<'a> ParseState<'a, &'a str> {
     ///   * 1 不断从「解析环境」中消耗文本（头部索引`head`右移）并置入「中间解析结果」中
     ///   * 2 直到「头部索引」超过文本长度（越界）
     fn build_mid_result(&mut self) -> ConsumeResult {
+        #[cfg(narsese_verif)]
+        verif_trace::emit(|| format!(r#"{{"ev":"build","len":{},"head":{},"slots":"{}"}}"#, self.len_env, self.head, verif_trace::slots(&self.mid_result)));
         // 初始化可收集的错误
         let mut errs: Vec<String> = vec![];
         // 在「可以继续消耗」时
@@ -559,8 +598,12 @@ impl<'a> ParseState<'a, &'a str> {
             self.head_skip_spaces();
             // 仍能继续消耗⇒消耗文本
             if self.can_consume() {
+                #[cfg(narsese_verif)]
+                verif_trace::emit(|| format!(r#"{{"ev":"item_begin","head":{}}}"#, self.head));
                 // 消耗文本&置入「中间结果」
                 self.consume_one(&mut errs)?;
+                #[cfg(narsese_verif)]
+                verif_trace::emit(|| format!(r#"{{"ev":"item_end","head":{},"slots":"{}"}}"#, self.head, verif_trace::slots(&self.mid_result)));
             }
         }
         // 返回「消耗成功」结果
@@ -1390,6 +1433,8 @@ impl<'a> ParseState<'a, &'a str> {
     ///   * 📌必须先【可变借用】产生「元素」，再【不可变借用】产生「结果」
     ///   * 📌【2024-02-20 21:55:25】现在重新
     fn transform_mid_result(&mut self) -> ParseResult {
+        #[cfg(narsese_verif)]
+        verif_trace::emit(|| format!(r#"{{"ev":"assemble","head":{},"slots":"{}"}}"#, self.head, verif_trace::slots(&self.mid_result)));
         // 直接匹配各个属性 | 按照CommonNarsese语序`预算值 词项 标点 时间戳 真值`排列
         match (
             // ! 📝此处必须要用「不可变借用」以避免「部分所有权移动」问题
